@@ -261,6 +261,10 @@ func zsetScripts() [][][]string {
 	return [][][]string{
 		// equal scores inserted in an order no rotation of which is sorted (small Go maps iterate a rotation of the insertion order)
 		{{"zadd", "k1", "1", "b", "1", "a", "1", "c"}, {"zrange", "k1", "-inf", "+inf"}},
+		// rarely generated malformed / marginal forms, kept in the scripted part so that every run meets them
+		{{"zadd", "1", "2", "2"}, {"zadd", "k1", "1", "m"}, {"zrank", "k1", "m", "withscore"}, {"zrevrank", "k1", "m", "WITHSCORE"},
+			{"zunionstore", "a", "weights"}, {"zadd", "k2", "nx", "xx", "1", "m"}, {"zadd", "k2", "1", "b", "x", "d"}, {"zinterstore", "k3", "k1", "withscores"},
+			{"zcount", "k1", "-INF", "+INF"}, {"zadd", "k1", "gt", "ch", "2", "e", "2", "d", "1.5", "d"}},
 		probe("zunionstore", "k3", "k1"),
 		probe("zunionstore", "k3", "k1", "k9"),
 		probe("zunionstore", "k3", "k1", "weights", "1"),
